@@ -23,7 +23,8 @@ THEOREMS = ["collect_sound", "collect_complete", "collect_exact", "ids_injective
 # ----------------------------------------------------------------------------------------------------------------
 
 INTS = ["int", "int8", "int16", "int32", "uint8", "uint16", "uint32"]
-BASICS = INTS + ["string", "bool", "float64", "base.MyI8", "base.Blk", "base.MyS"]
+SHADOW = ["main.X#1", "main.X#2"]     # two DISTINCT types declared in sibling blocks of main(), both printed "main.X"
+BASICS = INTS + ["string", "bool", "float64", "base.MyI8", "base.Blk", "base.MyS"] + SHADOW
 BIDX = {b: i for i, b in enumerate(BASICS)}
 TAGGED = ["base.MyI8", "base.Blk", "base.MyS"]
 CONSTRAINT = {"any": "any", "cmp": "comparable", "int": "base.Integer", "tag": "base.Tagger"}
@@ -188,6 +189,16 @@ def is_closed(t):
     return all(is_closed(a) for a in t[1:])
 
 
+def has_shadow(t):
+    if t[0] == 'b':
+        return t[1] in SHADOW
+    if t[0] in 'onf':
+        return False
+    if t[0] == 'N':
+        return any(has_shadow(a) for a in t[2])
+    return any(has_shadow(a) for a in t[1:])
+
+
 def has_named(t):
     k = t[0]
     if k == 'N':
@@ -302,7 +313,18 @@ class Program:
         self.npkgs = npkgs          # including main and base
         self.defs = []
         self.seeds = {}             # pkg -> body (list of statements)
+        self.ascending = True
         self.identity = []          # closed named types probed in main's identity matrix (appended seeds)
+
+    def can_use(self, a, b):
+        """package a may refer to package b: main imports every user package; among the user packages the import direction is
+        either ascending (p1 imports p2 …) or descending (p3 imports p2 … — then `Finish` needs several rounds, because the
+        packages are visited in path order)"""
+        if a == b or a == 0:
+            return b != 1
+        if b < 2:
+            return False
+        return b > a if self.ascending else b < a
 
     def pkg_name(self, p):
         return "main" if p == 0 else ("base" if p == 1 else "p%d" % (p - 1))
@@ -347,6 +369,8 @@ def stmt_events(P, st):
         for a in args:
             for n in nested_named(a, []):
                 evs.append(('u', n[1], tuple(n[2]), False))
+    elif kind == 'shadow':       # ('shadow', k, stmt): { type X …; stmt }
+        evs += stmt_events(P, st[2])
     elif kind == 'ltype':        # ('ltype', c)
         evs.append(('l', st[1]))
     elif kind == 'lgtype':       # ('lgtype', c): the TypeSpec of a local generic type, walked with the enclosing function
@@ -451,7 +475,7 @@ class Gen:
                 cands.append(("param", term))
         if cls in ("any", "cmp", "int"):
             for b in BASICS:
-                if cls in self.classes_of_basic(b):
+                if b not in SHADOW and cls in self.classes_of_basic(b):
                     cands.append(("basic", b))
         if cls == "tag":
             for b in TAGGED:
@@ -481,7 +505,7 @@ class Gen:
         if kind == "map":
             return ('M', sub("cmp"), sub("any"))
         if kind in ("named", "ptrnamed"):
-            types = [d for d in P.defs if d.kind == "type" and (d.pkg == pkg or (d.pkg > pkg and d.pkg != 1) or pkg == 0)]
+            types = [d for d in P.defs if d.kind == "type" and P.can_use(pkg, d.pkg)]
             if not types:
                 return ('P', ('b', "base.MyS")) if kind == "ptrnamed" else ('b', "int")
             d = rng.choice(types)
@@ -495,7 +519,7 @@ class Gen:
         """a statement instantiating some func/type reachable from ctx"""
         rng = self.rng
         pkg, params = ctx
-        cal = [d for d in P.defs if d.kind in ("func", "type") and (d.pkg == pkg or (d.pkg > pkg and d.pkg != 1) or pkg == 0)]
+        cal = [d for d in P.defs if d.kind in ("func", "type") and P.can_use(pkg, d.pkg)]
         if want:
             cal = [d for d in cal if d.kind == want] or cal
         if not cal:
@@ -511,9 +535,11 @@ class Gen:
 
     def program(self):
         rng, size = self.rng, self.size
-        nuser = rng.choice([1, 2, 3]) if size > 0 else 1           # p1..pn
+        nuser = rng.choice([1, 2, 3]) if size > 0 else 0           # p1..pn; size 0: everything in package main
         P = Program(2 + nuser)
-        pkgs = [0] + list(range(2, 2 + nuser))
+        P.ascending = rng.random() < 0.4
+        user = list(range(2, 2 + nuser))
+        pkgs = [0] + (user if P.ascending else user[::-1])
         # definitions, created package by package so that ids increase along the import direction
         for p in pkgs:
             nfun = rng.randint(1, 3 if size > 0 else 2)
@@ -547,7 +573,7 @@ class Gen:
                         lg.pos = d.pos
                         lparams = [(('n', i), c) for i, c in enumerate(d.classes)] + [(('o', 0), lg.classes[0])]
                         for _ in range(rng.randint(0, 2)):
-                            types = [t for t in P.defs if t.kind == "type" and (t.pkg == d.pkg or (t.pkg > d.pkg and t.pkg != 1) or d.pkg == 0)]
+                            types = [t for t in P.defs if t.kind == "type" and P.can_use(d.pkg, t.pkg)]
                             if not types:
                                 break
                             t = rng.choice(types)
@@ -566,7 +592,7 @@ class Gen:
                 params = [(('o', i), c) for i, c in enumerate(d.classes)]
                 ctx = (d.pkg, params)
                 for _ in range(rng.randint(0, 2)):
-                    types = [t for t in P.defs if t.kind == "type" and (t.pkg == d.pkg or (t.pkg > d.pkg and t.pkg != 1) or d.pkg == 0)]
+                    types = [t for t in P.defs if t.kind == "type" and P.can_use(d.pkg, t.pkg)]
                     t = rng.choice(types)
                     if t.id == d.id:
                         d.body.append(('field', t.id, tuple(('o', i) for i in range(len(d.classes))), 'P'))   # *Self[T…]
@@ -574,6 +600,8 @@ class Gen:
                     forward = t.pos > d.pos
                     args = tuple(self.gen_type(P, ctx, c, 1, not forward, d.pos) for c in t.classes)
                     wrap = rng.choice(['V', 'P', 'S']) if forward else rng.choice(['P', 'S'])
+                    if wrap == 'V' and any(has_named(a) for a in args):
+                        wrap = 'P'          # a by-value field whose argument names a type could close a by-value cycle
                     d.body.append(('field', t.id, args, wrap))
         # seeds: main() and Boot() of the user packages
         for p in pkgs:
@@ -583,6 +611,19 @@ class Gen:
                 u = self.gen_use(P, None, (p, []), False)
                 if u:
                     P.seeds[p].append(u)
+            # same-named distinct local types as type arguments: only in single-package programs (across packages the
+            # compiler refers to them as $pkg.X: finding C04-same-named-local-types-across-packages)
+            if p == 0 and nuser == 0:
+                cands = [d for d in P.defs if d.kind in ("func", "type") and any(c in ("any", "cmp") for c in d.classes)]
+                if cands:
+                    d = rng.choice(cands)
+                    slot = rng.choice([i for i, c in enumerate(d.classes) if c in ("any", "cmp")])
+                    args = [self.gen_type(P, (0, []), c, 1, True, None) for c in d.classes]
+                    for k in (1, 2):
+                        a = list(args)
+                        a[slot] = ('b', SHADOW[k - 1])
+                        inner = ('call', d.id, tuple(a), rng.choice(["infer", "explicit"])) if d.kind == "func" else ('var', d.id, tuple(a))
+                        P.seeds[0].append(('shadow', k, inner))
         return P
 
 
@@ -603,6 +644,8 @@ class Render:
         k = t[0]
         r = lambda x: self.ty(x, pkg, own, nest, for_string)
         if k == 'b':
+            if t[1] in SHADOW:
+                return "main.X" if for_string else "X"
             if t[1].startswith("base.") and pkg == 1 and not for_string:
                 return t[1][5:]
             return t[1]
@@ -678,15 +721,25 @@ class Render:
                 self.tmp += 1
                 v = "v%d" % self.tmp
                 tys = ", ".join(self.ty(a, pkg, own, nest) for a in args)
-                out.append("%svar %s %s[%s]" % (ind, v, self.qual(d, pkg), tys))
                 if d.kind == 'type':
-                    out.append("%s%s.Run()" % (ind, v))
-                    out.append('%sbase.Emit("val:" + %s.Val())' % (ind, v))
-                else:   # local generic type: identity through the registry, field method dispatch
+                    # own block: a variable of a named type of ANOTHER package in the scope chain of a function-local type
+                    # trips FindNestingFunc (finding C04-nesting-func-cross-package-positions)
+                    out.append("%s{" % ind)
+                    out.append("%s\tvar %s %s[%s]" % (ind, v, self.qual(d, pkg), tys))
+                    out.append("%s\t%s.Run()" % (ind, v))
+                    out.append('%s\tbase.Emit("val:" + %s.Val())' % (ind, v))
+                    out.append("%s}" % ind)
+                else:
+                    out.append("%svar %s %s[%s]" % (ind, v, self.qual(d, pkg), tys))   # local generic type: identity through the registry, field method dispatch
                     out.append('%sbase.Emit("%s:" + base.Reg(any(%s)))' % (ind, d.name, v))
                     for fi, f in enumerate(d.body):
                         out.append('%sbase.Emit("%s.F%d:" + %s.F%d.Tag())' % (ind, d.name, fi, v, fi) if P.defs[f[1]].kind == 'type' else
                                    '%s_ = %s.F%d' % (ind, v, fi))
+            elif k == 'shadow':
+                out.append("%s{" % ind)
+                out.append("%s\ttype X struct{ a %s }" % (ind, ["int", "int8"][st[1] - 1]))
+                out += self.stmts([st[2]], pkg, ind + "\t", own, nest)
+                out.append("%s}" % ind)
             elif k == 'ltype':
                 d = P.defs[st[1]]
                 owner = P.defs[d.owner]
@@ -898,6 +951,8 @@ WITNESSES = [
     ('local-type-in-anon-struct', "local-type-in-composite-type", {"main.go": 'package main\n\nfunc g[T any](x T) int {\n\ttype cell struct{ v T }\n\t_ = struct{ c cell }{}\n\treturn 1\n}\n\nfunc main() { println(g[int](1), g[string]("a")) }\n'}),
     ('local-type-independent-in-slice', "local-type-in-composite-type", {"main.go": 'package main\n\nfunc g[T any](x T) int {\n\ttype cell struct{ v T }\n\ttype tag struct{}; _ = []tag{{}}\n\treturn 1\n}\n\nfunc main() { println(g[int](1), g[string]("a")) }\n'}),
     ('local-generic-type-self-pointer', "local-type-in-composite-type", {"main.go": 'package main\n\nfunc g[T any](x T) int {\n\ttype cell struct{ v T }\n\ttype node[U any] struct{ next *node[U]; v T }; _ = node[int]{}\n\treturn 1\n}\n\nfunc main() { println(g[int](1), g[string]("a")) }\n'}),
+    ("nesting-func-cross-package-positions", "cross-package-position-confusion", {"p1/p1.go": 'package p1\n\ntype B[T any] struct{ A T }\n\nfunc (b *B[T]) Run() int {\n\tn := 0\n\tn++\n\tn++\n\tn++\n\tn++\n\tn++\n\tn++\n\tn++\n\tn++\n\tn++\n\tn++\n\tn++\n\tn++\n\tn++\n\tn++\n\tn++\n\tn++\n\tn++\n\tn++\n\tn++\n\treturn n\n}\n', "main.go": 'package main\n\nimport "MOD/p1"\n\nfunc F[T any](_ T) int {\n\ttype L struct{ V *T }\n\tvar l L\n\tvar v p1.B[T]\n\t_ = l\n\treturn v.Run()\n}\n\nfunc main() { println(F[int](1), F[string]("a")) }\n'}),
+    ("same-named-local-types-across-packages", "same-named-local-types-across-packages", {"p1/p1.go": 'package p1\n\nfunc D[T any]() any { return (*T)(nil) }\n', "main.go": 'package main\n\nimport "MOD/p1"\n\nfunc main() {\n\tvar a, b any\n\t{\n\t\ttype X struct{ a int }\n\t\ta = p1.D[X]()\n\t}\n\t{\n\t\ttype X struct{ a int8 }\n\t\tb = p1.D[X]()\n\t}\n\tprintln(a == b)\n}\n'}),
 ]
 # controls: the neighbouring forms that must work
 CONTROLS = [
@@ -911,6 +966,8 @@ CONTROLS = [
     ('control-local-type-in-chan', {"main.go": 'package main\n\nfunc g[T any](x T) int {\n\ttype cell struct{ v T }\n\tvar c chan cell; _ = c\n\treturn 1\n}\n\nfunc main() { println(g[int](1), g[string]("a")) }\n'}),
     ('control-local-type-in-func', {"main.go": 'package main\n\nfunc g[T any](x T) int {\n\ttype cell struct{ v T }\n\t_ = func(c cell) {}\n\treturn 1\n}\n\nfunc main() { println(g[int](1), g[string]("a")) }\n'}),
     ('control-local-type-assert', {"main.go": 'package main\n\nfunc g[T any](x T) int {\n\ttype cell struct{ v T }\n\tvar e any = cell{x}; _, _ = e.(cell)\n\treturn 1\n}\n\nfunc main() { println(g[int](1), g[string]("a")) }\n'}),
+    ("control-cross-package-var-in-inner-block", {"p1/p1.go": 'package p1\n\ntype B[T any] struct{ A T }\n\nfunc (b *B[T]) Run() int {\n\tn := 0\n\tn++\n\tn++\n\tn++\n\tn++\n\tn++\n\tn++\n\tn++\n\tn++\n\tn++\n\tn++\n\tn++\n\tn++\n\tn++\n\tn++\n\tn++\n\tn++\n\tn++\n\tn++\n\tn++\n\treturn n\n}\n', "main.go": 'package main\n\nimport "MOD/p1"\n\nfunc F[T any](_ T) int {\n\ttype L struct{ V *T }\n\tvar l L\n\t_ = l\n\t{\n\t\tvar v p1.B[T]\n\t\treturn v.Run()\n\t}\n}\n\nfunc main() { println(F[int](1), F[string]("a")) }\n'}),
+    ("control-same-named-local-types-one-package", {"main.go": 'package main\n\nfunc D[T any]() any { return (*T)(nil) }\n\nfunc main() {\n\tvar a, b any\n\t{\n\t\ttype X struct{ a int }\n\t\ta = D[X]()\n\t}\n\t{\n\t\ttype X struct{ a int8 }\n\t\tb = D[X]()\n\t}\n\tprintln(a == b)\n}\n'}),
     ("control-local-type-values", {
         "main.go": 'package main\n\nfunc g[T any](x T) any { type cell struct{ v T }; c := cell{x}; return &c }\nfunc h[T any](x T) any { type cell struct{ v T }; return cell{x} }\nfunc k[T any](x T) any { type pair[U any] struct{ v T; u U }; return pair[int]{x, 1} }\n\nfunc main() {\n\tprintln(g[int](1) == g[int](1), h[int](1) == h[int](1), h[int](1) == h[int8](1), k[int](1) == k[int](1), k[int](1) == k[string]("a"))\n}\n'}),
 ]
@@ -968,12 +1025,12 @@ def build_programs(chk, n, size):
                 chk.count("gen:diverging-closure-discarded")
                 continue
             # identity probes: a few named instances of the closure become seeds at the end of main()
-            named = [t for t in types_in_set(sets) if t[0] == 'N']
+            named = [t for t in types_in_set(sets) if t[0] == 'N' and not has_shadow(t)]
             for p in sorted(sets):
                 for (o, nest, args) in sets[p]:
                     if P.defs[o].kind == 'type' and not nest:
                         t = ('N', o, args)
-                        if t not in named:
+                        if t not in named and not has_shadow(t):
                             named.append(t)
             chk.rng.shuffle(named)
             P.identity = named[:chk.rng.randint(2, 4)]
@@ -1047,7 +1104,7 @@ def run(tier, seed):
     C.build_gvh("gvh_c04")
 
     # ---- substitution: code vs spec on local-free terms (driver smoke; the theorem is subst_code_eq_spec) ----
-    nprog = {"quick": 14, "thorough": 150}[tier]
+    nprog = {"quick": 14, "thorough": 90}[tier]
     progs_ = build_programs(chk, nprog, 1)
     progs_ += build_programs(chk, max(2, nprog // 5), 0)
     lines = [model_line(P) for P in progs_]
@@ -1060,17 +1117,17 @@ def run(tier, seed):
         sets = parse_model(model[k])
         if sets is None:
             raise RuntimeError("model diverges after adding identity seeds (cannot happen: they are in the closure)")
-        P.desc_types = [t for t in types_in_set(sets) if not has_named(t) and t[0] != 'b'][:40]
+        P.desc_types = [t for t in types_in_set(sets) if not has_named(t) and not has_shadow(t) and t[0] != 'b'][:40]
         R = Render(P)
         mod = "gvq%dx%d" % (seed, k)
         jobs.append({"id": "g%d" % k, "mod": mod, "files": R.files(mod), "variants": ["plain", "minify"], "native": True, "timeout": 300})
         renders.append(R)
-    for (wid, cls, files) in WITNESSES:
-        mod = "gvqw" + re.sub(r"\W", "", wid)
+    for wi, (wid, cls, files) in enumerate(WITNESSES):
+        mod = "gvqw%d" % wi
         jobs.append({"id": "w-" + wid, "mod": mod, "files": {n: s.replace("MOD", mod) for n, s in files.items()},
                      "variants": ["plain"], "native": True, "timeout": 300})
-    for (cid, files) in CONTROLS:
-        mod = "gvqc" + re.sub(r"\W", "", cid)
+    for ci, (cid, files) in enumerate(CONTROLS):
+        mod = "gvqc%d" % ci
         jobs.append({"id": "c-" + cid, "mod": mod, "files": {n: s.replace("MOD", mod) for n, s in files.items()},
                      "variants": ["plain", "minify"], "native": True, "timeout": 300})
     res = run_jobs_retry(jobs, par=6 if tier == "quick" else 8)
@@ -1127,8 +1184,10 @@ def run(tier, seed):
             if obs != nat:
                 d = first_diff(obs[0], nat[0])
                 sig = None
-                if wclass and obs[1].startswith("compile-error"):
-                    sig = "C04 compile-panic %s %s" % (wclass, msg_class(obs[1]))
+                if wclass == "same-named-local-types-across-packages" and obs[1] == nat[1] == "exit0":
+                    sig = "C04 conflation same-named-local-types-as-type-arguments cross-package"
+                elif wclass and obs[1].startswith("compile-error"):
+                    sig = "C04 compile-panic %s %s" % (wclass, msg_class(r["runs"][v].get("err") or obs[1]))
                 chk.add_mismatch("program:" + v, json.dumps({"id": j["id"], "mod": j["mod"], "first_diff_line": d, "files": j["files"]}),
                                  impl=json.dumps([obs[0][d:d + 4], obs[1]]), spec=json.dumps([nat[0][d:d + 4], nat[1]]), signature=sig)
             elif wclass:
